@@ -111,7 +111,7 @@ TQuery == /\ Is("query") /\ UNCHANGED <<sid, issued, no, picked, pubs, shown, la
 Converged(e) == /\ shown # None /\ shown.final /\ shown.count = e.total /\ shown.sort = e.sort
                 /\ shown.res = Oracle[Key(sid, e.q, e.total, e.sort, lastReset.rev)]
                 /\ lastReset # None /\ shown.no = lastReset.no
-                /\ e.getres = shown.res /\ e.matchCount = (IF Len(shown.res) = 2 /\ shown.res[1] > 64 THEN shown.res[1] ELSE Len(shown.res))
+                /\ e.getres = shown.res /\ e.matchCount = (IF Len(shown.res) = 2 /\ shown.res[1] < 0 THEN -shown.res[1] ELSE Len(shown.res))
 TEnd == /\ Is("end") /\ issued["retry"] = <<>> /\ issued["reset"] = <<>> /\ picked = None
         /\ (dev = {} => Converged(Ev))
         /\ ended' = TRUE
